@@ -164,7 +164,7 @@ fn gen_path_prog(t: &mut Tape) -> GenProg {
 }
 
 pub fn run(r: &mut Runner) {
-    r.rule = "part programs: generated programs (plus a family of environment paths with 7/15/23/25 significant bits as inline and heap atoms) x all flag sets x budgets; part operators: direct calls of every operator on arbitrary argument trees; part fastops: + - > sha256 * on inline small integers at every width boundary, (sha256 1 n) with n <= 41 in every representation. \
+    r.rule = "part programs: generated programs (plus a family of environment paths with 7/15/23/25 significant bits as inline and heap atoms) x all flag sets x budgets; part paths: raw path atoms following generated spines (dense around 7/8, 15/16, 23/24, 31/32 steps; with/without leading zero bytes; inline, heap copy and view); part operators: direct calls of every operator on arbitrary argument trees; part fastops: + - > sha256 * on inline small integers at every width boundary, (sha256 1 n) with n <= 41 in every representation. \
         Oracle: the same case is executed by three separately built binaries of this harness (default, clvmr/no-fastpath, clvmr/counters+pre-eval with an observe-only pre/post-eval callback) and the outcome records (result hash, cost, error kind and message, atom/pair/heap counts) must be identical. \
         Non-trivial = fast-path eligible by construction and successful; distinct by case."
         .into();
@@ -183,6 +183,19 @@ pub fn run(r: &mut Runner) {
             if t.chance(1, 4) {
                 c.p = gen_path_prog(t);
             }
+            c
+        },
+        test_prog,
+    );
+    // raw path atoms (no canonical-integer leading zero, all-ones paths, every representation) into deep environments
+    let n = r.n(20_000, 500_000);
+    r.run_part(
+        "paths",
+        n,
+        130,
+        |t: &mut Tape| {
+            let mut c = crate::checks::c01::gen_path_case(t);
+            c.flags = crate::r#gen::programs::gen_flags(t);
             c
         },
         test_prog,
